@@ -259,31 +259,117 @@ Fixpoint dict_stack (pairs_rev : list (bytes * value)) : stack :=
   | (k, v) :: r => SVal (VString k) :: SVal v :: dict_stack r
   end.
 
+(** the same stack with arbitrary key values *)
+Fixpoint dict_stack_v (pairs_rev : list (value * value)) : stack :=
+  match pairs_rev with
+  | [] => []
+  | (k, v) :: r => SVal k :: SVal v :: dict_stack_v r
+  end.
+Definition is_str (v : value) : bool := match v with VString _ => true | _ => false end.
+Definition str_entries (prs : list (value * value)) : list (bytes * value) :=
+  flat_map (fun kv => match fst kv with VString s => [(s, snd kv)] | _ => [] end) prs.
+
+Lemma mkdict_general rs E d st : forall prs acc bad lg,
+  Forall (fun kv => not_ident (fst kv) /\ not_ident (snd kv)) prs ->
+  (fix go (k : nat) (st0 : stack) (acc0 : list (bytes * value)) (bad0 : bool) {struct k} : M (option Z * stack) :=
+     match k with
+     | O => if bad0 then mret (None, push (VErr EValue) st0)
+            else mret (None, push (VMap (fold_left (fun m kv => map_insert m (fst kv) (snd kv)) acc0 [])) st0)
+     | S k' =>
+         mbind (pop_val rs E d st0) (fun rk => let '(key, st1) := rk in
+         mbind (pop_val rs E d st1) (fun rv => let '(v, st2) := rv in
+         match key with
+         | VString s => go k' st2 ((s, v) :: acc0) bad0
+         | _ => go k' st2 acc0 true
+         end))
+     end) (length prs) (dict_stack_v prs ++ st) acc bad lg =
+  (ROk (None, SVal (if bad || negb (forallb is_str (map fst prs)) then VErr EValue
+                    else VMap (fold_left (fun m kv => map_insert m (fst kv) (snd kv)) (rev (str_entries prs) ++ acc) [])) :: st), lg).
+Proof.
+  induction prs as [|[k v] prs IH]; intros acc bad lg Hp.
+  - cbn. rewrite orb_false_r. destruct bad; reflexivity.
+  - inversion Hp as [|? ? [Hk Hv] Hr]; subst. cbn [length dict_stack_v app fst snd] in *.
+    unfold mbind at 1. rewrite pop_val_plain by exact Hk.
+    unfold mbind at 1. rewrite pop_val_plain by exact Hv.
+    destruct k; rewrite IH by assumption; cbn [map fst forallb is_str andb negb orb str_entries flat_map app rev];
+      rewrite ?orb_true_r, ?orb_true_l; try reflexivity.
+    fold (str_entries prs). cbn [snd]. rewrite <- app_assoc. reflexivity.
+Qed.
+
+Lemma dict_stack_as_v prs : dict_stack prs = dict_stack_v (map (fun kv => (VString (fst kv), snd kv)) prs).
+Proof. induction prs as [|[k v] r IH]; [reflexivity|]. cbn. rewrite IH. reflexivity. Qed.
+
 Theorem mkdict_spec : forall rs E d pairs st lg,
   Forall (fun kv => not_ident (snd kv)) pairs ->
   step rs E d (IMkDict (zlen pairs)) (dict_stack (rev pairs) ++ st) lg =
     (ROk (None, SVal (VMap (build_map pairs)) :: st), lg).
 Proof.
   intros rs E d pairs st lg Hf. cbn [step]. unfold zlen. rewrite Nat2Z.id.
-  rewrite <- (rev_length pairs).
-  assert (G : forall prs acc, Forall (fun kv => not_ident (snd kv)) prs ->
-    (fix go (k : nat) (st0 : stack) (acc0 : list (bytes * value)) {struct k} : M (option Z * stack) :=
-       match k with
-       | O => mret (None, push (VMap (fold_left (fun m kv => map_insert m (fst kv) (snd kv)) acc0 [])) st0)
-       | S k' =>
-           mbind (pop_val rs E d st0) (fun rk => let '(key, st1) := rk in
-           match key with
-           | VString s => mbind (pop_val rs E d st1) (fun rv => let '(v, st2) := rv in go k' st2 ((s, v) :: acc0))
-           | _ => mfail EValue
-           end)
-       end) (length prs) (dict_stack prs ++ st) acc lg =
-    (ROk (None, SVal (VMap (fold_left (fun m kv => map_insert m (fst kv) (snd kv)) (rev prs ++ acc) [])) :: st), lg)).
-  { induction prs as [|[k v] prs IH]; intros acc Hp.
-    - reflexivity.
-    - inversion Hp as [|? ? Hv Hr]; subst. cbn [length dict_stack app].
-      unfold mbind at 1. rewrite pop_val_plain by exact I.
-      unfold mbind at 1. rewrite pop_val_plain by exact Hv.
-      rewrite IH by assumption. cbn [rev]. rewrite <- app_assoc. reflexivity. }
-  rewrite G by (apply Forall_rev; assumption).
-  rewrite rev_involutive, app_nil_r. reflexivity.
+  rewrite <- (rev_length pairs). rewrite dict_stack_as_v.
+  rewrite <- (map_length (fun kv => (VString (fst kv), snd kv)) (rev pairs)).
+  rewrite mkdict_general.
+  - cbn [orb]. rewrite map_map. cbn [fst].
+    replace (forallb is_str (map (fun x => VString (fst x)) (rev pairs))) with true
+      by (symmetry; apply forallb_forall; intros x Hx; apply in_map_iff in Hx; destruct Hx as (y & <- & _); reflexivity).
+    cbn [negb]. rewrite app_nil_r.
+    replace (str_entries (map (fun kv => (VString (fst kv), snd kv)) (rev pairs))) with (rev pairs).
+    + rewrite rev_involutive. reflexivity.
+    + generalize (rev pairs) as l. induction l as [|[k v] l IHl]; [reflexivity|]. cbn. f_equal. exact IHl.
+  - apply Forall_forall. intros x Hx. apply in_map_iff in Hx. destruct Hx as ([k v] & <- & Hy). cbn. split; [exact I|].
+    rewrite Forall_forall in Hf. apply (Hf (k, v)). apply in_rev. exact Hy.
+Qed.
+
+(** the constant folder on arbitrary keys *)
+Fixpoint interleave_v (prs : list (value * value)) : list value :=
+  match prs with [] => [] | (k, v) :: r => v :: k :: interleave_v r end.
+
+Lemma const_map_v : forall prs acc,
+  const_map (interleave_v prs) acc =
+  if forallb is_str (map fst prs) then VMap (fold_left (fun m kv => map_insert m (fst kv) (snd kv)) (str_entries prs) acc)
+  else VErr EValue.
+Proof.
+  induction prs as [|[k v] r IH]; intros acc; [reflexivity|].
+  cbn [interleave_v map fst forallb]. destruct k; cbn [const_map is_str andb]; try reflexivity.
+  rewrite IH. cbn [str_entries flat_map fst snd app]. fold (str_entries r). reflexivity.
+Qed.
+
+Lemma str_entries_app a b : str_entries (a ++ b) = str_entries a ++ str_entries b.
+Proof. unfold str_entries. apply flat_map_app. Qed.
+
+Lemma str_entries_rev prs : str_entries (rev prs) = rev (str_entries prs).
+Proof.
+  induction prs as [|[k v] r IH]; [reflexivity|]. cbn [rev]. rewrite str_entries_app, IH.
+  cbn [str_entries flat_map fst snd]. destruct k; cbn [app rev]; rewrite ?app_nil_r; try reflexivity.
+Qed.
+
+Lemma forallb_rev {A} (f : A -> bool) l : forallb f (rev l) = forallb f l.
+Proof.
+  induction l as [|x l IH]; [reflexivity|]. cbn [rev forallb]. rewrite forallb_app, IH. cbn. rewrite andb_true_r. apply andb_comm.
+Qed.
+
+(** Map literals, any keys: the VM's MkDict leaves exactly the value the
+    compiler's folder computes for the same entries: the same map (the last
+    entry of a repeated key wins) or, when some key is not a string, the same
+    error value. *)
+Theorem mkdict_equals_folder : forall rs E d prs st lg,
+  Forall (fun kv => not_ident (fst kv) /\ not_ident (snd kv)) prs ->
+  step rs E d (IMkDict (zlen prs)) (dict_stack_v (rev prs) ++ st) lg =
+    (ROk (None, SVal (const_map (interleave_v prs) []) :: st), lg).
+Proof.
+  intros rs E d prs st lg Hf. cbn [step]. unfold zlen. rewrite Nat2Z.id. rewrite <- (rev_length prs).
+  rewrite mkdict_general by (apply Forall_rev; exact Hf).
+  rewrite const_map_v. cbn [orb]. rewrite map_rev, forallb_rev.
+  destruct (forallb is_str (map fst prs)); cbn [negb]; [|reflexivity].
+  rewrite str_entries_rev, rev_involutive, app_nil_r. reflexivity.
+Qed.
+
+(** A key that is not a string makes the whole literal an error *value* (every
+    entry is still taken off the stack): the VM agrees with the compiler's folding. *)
+Theorem mkdict_bad_key : forall rs E d prs st lg,
+  Forall (fun kv => not_ident (fst kv) /\ not_ident (snd kv)) prs ->
+  forallb is_str (map fst prs) = false ->
+  step rs E d (IMkDict (zlen prs)) (dict_stack_v prs ++ st) lg = (ROk (None, SVal (VErr EValue) :: st), lg).
+Proof.
+  intros rs E d prs st lg Hf Hb. cbn [step]. unfold zlen. rewrite Nat2Z.id.
+  rewrite mkdict_general by assumption. rewrite Hb. reflexivity.
 Qed.
